@@ -130,7 +130,7 @@ structure FieldSpec (α : Type) where
 def schemaOf {α} (s : List (FieldSpec α)) : List Field := s.map (·.field)
 def valuesOf {α} (s : List (FieldSpec α)) (a : α) : List Bytes := s.map (·.val a)
 def writesOf {α} (s : List (FieldSpec α)) : List String := s.map (·.w)
-def readsOf {α} (s : List (FieldSpec α)) : List String := (s.map (·.r)).filter (· ≠ "")
+def readsOf {α} (s : List (FieldSpec α)) : List String := s.map (·.r)
 def encSpec {α} (s : List (FieldSpec α)) (a : α) : Option Bytes := encChecked (schemaOf s) (valuesOf s a)
 
 /-! ### extensions.go -/
@@ -174,6 +174,15 @@ def parseExtensions (b : Bytes) : Except ExtErr Int := parseExtensionsAux b.leng
 (= an empty `<0..2^16-1>` vector) and the marshalled leaf_index extension otherwise -/
 def extensionsOf (e : LogEntry) : Option Bytes :=
   if e.archival then some [] else marshalExtensions e.leafIndex
+
+/-- the builder calls of `addExtensions` on its two paths: `AddUint16(0)` is the empty `<0..2^16-1>` vector -/
+def addExtensionsWrites (archival : Bool) : List String :=
+  if archival then ["b.AddUint16(0)"]
+  else ["b.AddUint16LengthPrefixed{MarshalExtensions(Extensions{LeafIndex: e.LeafIndex}) guard(err != nil -> b.SetError) b.AddBytes(ext)}"]
+
+/-- `addUint40`: five bytes, most significant first (= `toBE 5`) -/
+def addUint40Writes : List String :=
+  ["b.AddBytes([]byte{byte(v >> 32), byte(v >> 24), byte(v >> 16), byte(v >> 8), byte(v)})"]
 
 abbrev LeafEnv := LogEntry × Bytes   -- the entry and its extensions bytes
 
